@@ -886,10 +886,11 @@ class Interp:
                 if contains_sym(val) or isinstance(val, SymStr):
                     symbolic = True
                     parts.append("<sym>")
-                    if isinstance(val, SymStr) and val.parts is not None:
-                        struct_parts.extend(val.parts)
-                    else:
-                        struct_parts.append(val)
+                    if v.format_spec is not None and isinstance(val, (SInt, STrueDiv)):
+                        fs = self.eval(v.format_spec, fr)
+                        if isinstance(fs, str) and fs.endswith("f"):
+                            val = self.call(format, (val, fs))
+                    struct_parts.append(val)
                 else:
                     try:
                         spec = ""
